@@ -7,6 +7,7 @@ TInit == l = 1
 PROP == IOEnv.PROP
 Step == /\ l <= Len(Rec) /\ l' = l + 1
         /\ IF PROP = "C05" THEN Rec[l].outcome \in Accept(Rec[l].call)
+           ELSE IF PROP = "C01" THEN (Rec[l].outcome = "Ok" => ShapeOK(Rec[l].call, Rec[l].shape))
            ELSE \* C06 / C17: recency order of a cache built from an ordered source
                 (IF Rec[l].outcome = "Ok" THEN OrderOK(Rec[l].call, Rec[l].order, Rec[l].cap) ELSE TRUE)
 TSpec == TInit /\ [][Step]_l
